@@ -598,12 +598,16 @@ def oracle(case, recs):
             acc = (0, 0)
             for h in mfs:
                 acc = combine(acc, h)
-            if h2(r["fs"]) != acc:
-                bad.append(("TEAM:fold-combine", "team signature %s is not the ordered fold of combine over the members (%016x:%016x)"
-                            % (r["fs"], acc[0], acc[1]), n))
+            # (the exact combine formula is compared by the correspondence; the property
+            # itself asks for an ORDERED combination: reversing distinct members must matter)
+            if mfs != mfs[::-1] and r.get("rfs") == r["fs"]:
+                bad.append(("TEAM:order-insensitive", "team signature %s does not depend on the order of its members %s"
+                            % (r["fs"], r["mfs"]), n))
             for j, (mr, mf) in enumerate(zip(r["mraw"].split(","), r["mfs"].split(","))):
                 if mr != ZERO and mr != mf:
-                    bad.append(("TEAM:%s:stale-member-signature" % op, "member %d has a stale cached signature after %s" % (j, op), n))
+                    bad.append(("TEAM:stale-member-signature",
+                                "member %d of the team has a stale cached signature %s (from scratch: %s), seen after %s"
+                                % (j, mr, mf, op), n))
     return bad
 
 
